@@ -18,6 +18,9 @@ Nothing here imports the repository at module load; `build_base` receives the me
 
 CORE_TYPES = ['void', 'boolean', 'integer', 'real', 'string', 'unique_id']
 
+# parameters of the four homes; `pa` and `pn` are declared with user-defined types
+HOME_PARAMS = [['pi', 'integer'], ['pb', 'boolean'], ['ps', 'string'], ['pr', 'real'], ['pa', 'Age_t'], ['pn', 'Name_t']]
+
 SPEC = {
     'enums': [['Color', ['red', 'green', 'blue']], ['Mode', ['fast', 'slow']]],
     'consts': [['Limits', [['MAX', 'integer', '10'], ['LABEL', 'string', 'lbl'], ['RATIO', 'real', '0.5'],
@@ -25,7 +28,8 @@ SPEC = {
     'classes': [
         {'kl': 'DOG', 'name': 'Dog',
          'attrs': [['Id', 'integer'], ['Name', 'string'], ['Age', 'integer'], ['Weight', 'real'],
-                   ['Alive', 'boolean'], ['Tint', 'Color'], ['Score', 'integer']],
+                   ['Alive', 'boolean'], ['Tint', 'Color'], ['Score', 'integer'],
+                   ['Years', 'Years_t'], ['Nick', 'Name_t'], ['Fit', 'Flag_t']],
          'refs': [['Owner_Id', 'PER', 'Id']],
          'derived': ['Score'],
          'ops': [['bark', True, 'void', [['times', 'integer'], ['loud', 'boolean']]],
@@ -33,9 +37,10 @@ SPEC = {
                  ['rename', True, 'string', [['first', 'string'], ['last', 'string'], ['n', 'integer']]],
                  ['count', False, 'integer', []],
                  ['reset', False, 'void', [['val', 'integer']]],
-                 ['home_op', True, 'void', [['pi', 'integer'], ['pb', 'boolean'], ['ps', 'string'], ['pr', 'real']]]]},
+                 ['home_op', True, 'void', HOME_PARAMS]]},
         {'kl': 'PER', 'name': 'Person',
-         'attrs': [['Id', 'integer'], ['Name', 'string'], ['Rich', 'boolean'], ['Cash', 'real']],
+         'attrs': [['Id', 'integer'], ['Name', 'string'], ['Rich', 'boolean'], ['Cash', 'real'],
+                   ['Share', 'Ratio_t'], ['Level', 'Age_t']],
          'refs': [], 'derived': [],
          'ops': [['greet', True, 'string', [['msg', 'string']]],
                  ['total', False, 'real', []]]},
@@ -54,17 +59,21 @@ SPEC = {
                   ['scale', 'real', [['x', 'real']]],
                   ['label', 'string', []],
                   ['top', 'inst_ref<Dog>', []],
-                  ['home_fn', 'void', [['pi', 'integer'], ['pb', 'boolean'], ['ps', 'string'], ['pr', 'real']]]],
+                  ['home_fn', 'void', HOME_PARAMS]],
     'ees': [['LOG', 'Logging', [['info', 'void', [['msg', 'string']]],
                                 ['level', 'integer', []],
                                 ['fmt', 'string', [['a', 'string'], ['b', 'integer'], ['c', 'boolean']]]]],
             ['TIM', 'Time', [['now', 'integer', []], ['since', 'real', [['t', 'integer']]]]],
-            ['HOM', 'Home', [['home_brg', 'void', [['pi', 'integer'], ['pb', 'boolean'], ['ps', 'string'],
-                                                   ['pr', 'real']]]]]],
+            ['HOM', 'Home', [['home_brg', 'void', HOME_PARAMS]]]],
+    # user-defined types: name, the type it is based on (a core type or another user-defined type)
+    'udts': [['Age_t', 'integer'], ['Years_t', 'Age_t'], ['Name_t', 'string'], ['Ratio_t', 'real'], ['Flag_t', 'boolean']],
+    # state machine events per class: instance state machine (SM_ISM) and class / assigner state machine (SM_ASM):
+    # (derived label, meaning)
+    'events': [['DOG', [['DOG1', 'bark heard'], ['DOG2', 'fed']], [['DOG_A1', 'tick']]],
+               ['PER', [['PER1', 'paid']], []]],
 }
 
 HOMES = ['function', 'bridge', 'operation', 'derived']
-HOME_PARAMS = [['pi', 'integer'], ['pb', 'boolean'], ['ps', 'string'], ['pr', 'real']]
 HOME_SELF = {'function': None, 'bridge': None, 'operation': 'DOG', 'derived': 'DOG'}
 
 
@@ -95,6 +104,14 @@ def attr_type(kl, name):
     raise KeyError((kl, name))
 
 
+def core_type(ty):
+    """the core type a (chain of) user-defined type(s) is based on; other types are their own core type"""
+    for n, base in SPEC['udts']:
+        if n == ty:
+            return core_type(base)
+    return ty
+
+
 # --------------------------------------------------------------------------- base model
 
 def build_base(m, xtuml):
@@ -121,6 +138,12 @@ def build_base(m, xtuml):
             if prev is not None:
                 assert rel(prev, s_enum, 56, 'precedes')
             prev = s_enum
+        dts[name] = s_dt
+    for name, base in SPEC['udts']:
+        s_dt = pe(m.new('S_DT', Name=name))
+        s_udt = m.new('S_UDT')
+        assert rel(s_udt, s_dt, 17)
+        assert rel(s_udt, dts[base], 18)
         dts[name] = s_dt
     objs = {}
     for c in SPEC['classes']:
@@ -175,6 +198,15 @@ def build_base(m, xtuml):
                 homes['operation'] = o_tfr
     for numb, a, b, ph_ab, ph_ba, link in SPEC['rels']:
         pe(m.new('R_REL', Numb=numb))
+    for kl, ism, asm in SPEC['events']:
+        for kind, events in (('SM_ISM', ism), ('SM_ASM', asm)):
+            if not events:
+                continue
+            sm_sm = m.new('SM_SM')
+            m.new(kind, Obj_ID=objs[kl].Obj_ID, SM_ID=sm_sm.SM_ID)
+            for numb, (label, meaning) in enumerate(events):
+                m.new('SM_EVT', SM_ID=sm_sm.SM_ID, SMspd_ID=m.id_generator.next(), Numb=numb + 1,
+                      Drv_Lbl=label, Mning=meaning)
     for name, ret, params in SPEC['functions']:
         s_sync = pe(m.new('S_SYNC', Name=name))
         assert rel(s_sync, dts[ret], 25)
@@ -254,8 +286,9 @@ class ProgramGen(object):
        Expressions are generated as text directly (every sub-expression that is an operation is
        parenthesised with probability, always where the grammar needs it)."""
 
-    def __init__(self, rng, home, size, feats=None):
+    def __init__(self, rng, home, size, feats=None, events=False):
         self.r = rng
+        self.events = events
         self.home = home
         self.size = size
         self.scopes = [dict()]          # name -> ('trn', type) | ('int', kl) | ('ins', kl)
@@ -376,20 +409,20 @@ class ProgramGen(object):
         for h, kl in self.handles():
             c = class_of(kl)
             for n, _ in c['attrs']:
-                if attr_type(kl, n) == ty:
+                if core_type(attr_type(kl, n)) == ty:        # an attribute of a user-defined type reads as its core type
                     attr_src.append('%s.%s' % (h, n))
             for n, _, _ in c['refs']:
-                if attr_type(kl, n) == ty:
+                if core_type(attr_type(kl, n)) == ty:
                     attr_src.append('%s.%s' % (h, n))
         if sel:
             c = class_of(sel)
             for n, _ in c['attrs']:
-                if attr_type(sel, n) == ty:
+                if core_type(attr_type(sel, n)) == ty:
                     attr_src.append('selected.%s' % n)
                     attr_src.append('selected.%s' % n)
         if attr_src:
             opts += ['attr', 'attr']
-        if self.home != 'derived' and any(t == ty for _, t in HOME_PARAMS):
+        if self.home != 'derived' and any(core_type(t) == ty for _, t in HOME_PARAMS):
             opts.append('param')
         for g, cs in SPEC['consts']:
             if any(t == ty for _, t, _ in cs):
@@ -464,7 +497,7 @@ class ProgramGen(object):
             return r.choice(attr_src), False
         if k == 'param':
             return '%s.%s' % (r.choice(['param', 'param', 'PARAM']),
-                              r.choice([n for n, t in HOME_PARAMS if t == ty])), False
+                              r.choice([n for n, t in HOME_PARAMS if core_type(t) == ty])), False
         if k == 'const':
             for g, cs in SPEC['consts']:
                 names = [n for n, t, _ in cs if t == ty]
@@ -550,6 +583,10 @@ class ProgramGen(object):
             ks += ['self_attr', 'select_rel']
         if self.loop:
             ks += ['break', 'continue']
+        if self.events:
+            ks += ['gen_evt', 'gen_evt', 'create_evt', 'create_evt']
+            if self.visible(lambda v: v[0] == 'evt'):
+                ks += ['gen_pre', 'gen_pre']
         if self.feats is not None:
             ks = [k for k in ks if k in self.feats] or ['assign']
         return ks
@@ -619,7 +656,7 @@ class ProgramGen(object):
             h, kl = r.choice(hs)
             c = class_of(kl)
             an, at = r.choice(c['attrs'])
-            return [['s', '%s.%s = %s' % (h, an, self.expr(at, 0)[0]), 'assign']]
+            return [['s', '%s.%s = %s' % (h, an, self.expr(core_type(at), 0)[0]), 'assign']]
         if k == 'create':
             kl = r.choice(SPEC['classes'])['kl']
             name = self.target_var('int', kl, 'o')
@@ -689,6 +726,28 @@ class ProgramGen(object):
             head, ps, kw = r.choice(cands)
             return [['s', '%s%s(%s)' % (kw if r.random() < 0.5 else '', head, self.params_text(ps, 0, None)),
                      'plain']]
+        if k in ('gen_evt', 'create_evt'):
+            targets = []
+            for kl, ism, asm in SPEC['events']:
+                for label, meaning in asm:
+                    targets.append((label, meaning, '%s %s' % (kl, r.choice(['class', 'assigner']))))
+                for label, meaning in ism:
+                    targets.append((label, meaning, '%s creator' % kl))
+                    for h, _ in self.handles(kl):
+                        targets.append((label, meaning, h))
+                        targets.append((label, meaning, h))
+            label, meaning, to = r.choice(targets)
+            data = []
+            for nm in r.sample(['count', 'who', 'flag', 'amount'], r.choice([0, 0, 1, 2, 3])):
+                data.append('%s: %s' % (nm, self.expr(r.choice(SCALARS), 1)[0]))
+            spec = "%s:%s(%s)" % (label, "'%s'" % meaning if (' ' in meaning or r.random() < 0.6) else meaning,
+                                  ', '.join(data))
+            if k == 'gen_evt':
+                return [['s', 'generate %s to %s' % (spec, to), 'plain']]
+            name = self.target_var('evt', None, 'ev')
+            return [['s', 'create event instance %s of %s to %s' % (name, spec, to), 'plain']]
+        if k == 'gen_pre':
+            return [['s', 'generate %s' % r.choice(self.visible(lambda v: v[0] == 'evt')), 'plain']]
         if k == 'return':
             if r.random() < 0.3:
                 return [['s', 'return', 'plain']]
@@ -746,7 +805,7 @@ def _kw(rng, word, vary):
     return word.capitalize()
 
 
-_HEAD_WORDS = ('create', 'object', 'instance', 'delete', 'select', 'many', 'any', 'one', 'relate', 'unrelate',
+_HEAD_WORDS = ('create', 'object', 'event', 'generate', 'instance', 'delete', 'select', 'many', 'any', 'one', 'relate', 'unrelate',
                'return', 'control', 'stop', 'break', 'continue', 'bridge', 'transform')
 
 
@@ -877,7 +936,7 @@ class Rig(object):
         """the real parser (one parser object re-used; `oal.parse` builds a new one per call from the same tables)"""
         return self.parser.text_input(text + '\n')
 
-    def translate(self, home, text, via_model=False):
+    def translate(self, home, text, via_model=False, regenerate=True):
         """fresh base model, body text placed in the home, prebuild, regenerate: (metamodel, home instance, text).
         Raises OutOfDomain when the prebuilder itself reports an unresolved name (its two documented
         `raise Exception("Unknown …")` sites): such a body is not name-resolved, i.e. outside the property's domain
@@ -895,7 +954,7 @@ class Rig(object):
             if type(e) is Exception and str(e).startswith(('Unknown transient', 'Unknown identifier')):
                 raise OutOfDomain(str(e))
             raise
-        return m, h, self.sourcegen.gen_text_action(h)
+        return m, h, (self.sourcegen.gen_text_action(h) if regenerate else None)
 
     def tokens(self, text):
         """[(PLY token type, value)] of a text, by the real lexer"""
